@@ -145,10 +145,13 @@ CHECKS['C09'] = dict(
           'counts are strictly decreasing along the true rate order among dimensions of size > 1; get_dimensionality '
           'reports the true sizes (= numbers of distinct indices); the order computed by get_sort_order is a permutation '
           'whose strides equal the true strides for every dimension of size > 1 and which ranks those dimensions exactly '
-          'as the true rate order, for EVERY tie-breaking of the sort. PARTIAL: the statements for get_unit_values and '
-          'create_spec_inds_from_vals are written out (unit_values_statement, rebuild_indices_statement) but not yet '
-          'proved; their statement-by-statement executable models are compared with the implementation and with the '
-          'generator\'s ground truth on every case (thorough: all grids <= 3 dims x sizes <= 3 x all permutations).'),
+          'as the true rate order, for EVERY tie-breaking of the sort; unit_values - get_unit_values on the index and '
+          'value matrices of any such grid with distinct names returns every dimension\'s reference values in index '
+          'order, every guard of the statement-by-statement model (not starting with 0, non-constant step sizes, ragged '
+          'tiles) passing (Usid/Proofs/UnitValues.lean: list algebra for filters over range(H*P), tile structure of a '
+          'periodic row). PARTIAL: create_spec_inds_from_vals (rebuild_indices_statement) is stated, not proved; its '
+          'executable model is compared with the implementation and with the generator\'s ground truth on every case '
+          '(thorough: all grids <= 3 dims x sizes <= 3 x all permutations).'),
     note=COMMON_NOTE + 'Guard: at most as many dimensions as points (the shape heuristic of get_sort_order / '
          'get_dimensionality transposes otherwise: known finding KF-D5a). uint32 wrap-around not modelled.',
     ref='§5 C09')
